@@ -53,7 +53,7 @@ namespace Pistache
 
         typename Base::int_type snext() const
         {
-            if (this->gptr() == this->egptr())
+            if (this->egptr() - this->gptr() < 2)
             {
                 return traits_type::eof();
             }
